@@ -266,6 +266,29 @@ func c06Run(j *rt.Job, seed uint64, r *rt.Rec) {
 		r.Violate("C06/pk-determinism", "two keys from the same (seed,h,hash) differ", map[string]interface{}{"kind": "c06pk", "cfg": c}, rt.Hex(pk[:]), rt.Hex(pk2[:]))
 	}
 
+	// the other constructor of the same key: descriptor || seed ("extended seed") must give the same function of (seed, h, hash)
+	if c.H <= 10 {
+		var ext [51]byte
+		d, sd := c.desc(), c.seed()
+		copy(ext[:3], d[:])
+		copy(ext[3:], sd[:])
+		var pke [67]byte
+		var sge []byte
+		msg := msgFor(c, 0, "ext")
+		o := rt.Call(func() {
+			ke := xmss.NewXMSSFromExtendedSeed(ext)
+			pke = ke.GetPK()
+			sge, _ = ke.Sign(msg)
+		})
+		r.Eval(1)
+		r.Count("extended_seed_constructor_compared", 1)
+		if o.Kind != "value" || pke != pk || sigDiff(ref.Sign(0, msg), sge) != "" {
+			r.Violate("C06/pk/extended-seed-constructor", fmt.Sprintf("the key built by NewXMSSFromExtendedSeed(descriptor || seed) is not the reference key of (seed, h, hash): outcome %s %s, pk equal=%v, first signature: %s (%s)", o.Kind, o.Text, pke == pk, sigDiff(ref.Sign(0, msg), sge), c),
+				map[string]interface{}{"kind": "c06pk", "cfg": c, "ext": true}, rt.Hex(pk[:]), rt.Hex(pke[:]))
+			return
+		}
+	}
+
 	n := uint32(1) << uint(c.H)
 	check := func(k *xmss.XMSS, way string, path []uint32, salt string) bool {
 		idx := k.GetIndex()
@@ -360,6 +383,16 @@ func c06Replay(cs map[string]interface{}) (bool, string) {
 	}
 	ref := c.Cfg.newRef()
 	if c.Kind == "c06pk" {
+		if e, _ := cs["ext"].(bool); e {
+			var ext [51]byte
+			d, sd := c.Cfg.desc(), c.Cfg.seed()
+			copy(ext[:3], d[:])
+			copy(ext[3:], sd[:])
+			var pke [67]byte
+			o := rt.Call(func() { pke = xmss.NewXMSSFromExtendedSeed(ext).GetPK() })
+			want := ref.PK(c.Cfg.desc())
+			return o.Kind != "value" || !bytes.Equal(pke[:], want), fmt.Sprintf("outcome %s; NewXMSSFromExtendedSeed pk %s\nref pk %s", o.Kind, rt.Hex(pke[:]), rt.Hex(want))
+		}
 		pk := c.Cfg.newLib().GetPK()
 		want := ref.PK(c.Cfg.desc())
 		return !bytes.Equal(pk[:], want), fmt.Sprintf("lib pk %s\nref pk %s", rt.Hex(pk[:]), rt.Hex(want))
